@@ -45,6 +45,8 @@ RULE = (
     "Axes (stream axes and every project_grid stream): grids whose northing and/or easting vector is stored in decreasing order, unevenly spaced monotone "
     "axes and both combined, with hulls that are not symmetric under a flip (triangles, L-shapes). Names: None, strings, falsy names (0, 0.0, '', False) and "
     "non-string names (1, (1, 2), numpy integers, True, 2.5) - compared by type and value. "
+    "Extra coordinates (stream extras): data_coordinates with three / four arrays whose ignored height / time is NaN, +inf or -inf at all or some hull vertices, "
+    "at interior points or everywhere - same mask as the two-coordinate call. "
     "methods nearest/linear/cubic and gridder objects, both antialias settings, region/shape/spacing/dims kwargs; projected grids keep "
     "cell_aspect*(1+offset/extent) <= 1e4 except in the always-on stream pg_anisotropic (>= 1e5, known finding F10). Non-trivial = at least one "
     "query strictly inside and one strictly outside (mask) or a non-identity projection with a non-square grid (project_grid); distinct = "
@@ -112,6 +114,9 @@ for _tier, _n, _pg in (("quick", 60, 600), ("thorough", 1200, 12000)):
                           "pg:input_axes:northing_descending:uneven": int(0.01 * _pg), "pg:name_none": int(0.06 * _pg), "pg:name_falsy_int": int(0.015 * _pg),
                           "pg:name_falsy_str": int(0.015 * _pg), "pg:name_falsy_bool": int(0.015 * _pg), "pg:name_falsy_float": int(0.015 * _pg),
                           "pg:name_non_string_tuple": int(0.015 * _pg), "pg:name_non_string_int64": int(0.015 * _pg), "pg:name_non_string_int": int(0.015 * _pg)})
+for _tier, _n in (("quick", 50), ("thorough", 1000)):
+    FLOORS[_tier].update({"eval:mask_extra_coordinate_invariance": 450 * _n, "extras:form:three_arrays_height": int(0.4 * _n), "extras:form:four_arrays_height_time": int(0.4 * _n),
+                          "extras:nan_at_all_hull_vertices": int(0.02 * _n), "extras:posinf_at_some_hull_vertices": int(0.02 * _n), "extras:neginf_at_interior_points": int(0.02 * _n)})
 JOBS = {"quick": 1, "thorough": 8}
 CASE_TIMEOUT_S = 300
 
@@ -120,9 +125,9 @@ _STATE = {}
 
 def plan(tier):
     if tier == "quick":
-        out = collections.OrderedDict(cloud=300, lattice=150, thin=200, affine=120, forms=120, layouts=50, twins=50, constructions=30, axes=60, pg_affine=250, pg_general=350)
+        out = collections.OrderedDict(cloud=300, lattice=150, thin=200, affine=120, forms=120, layouts=50, twins=50, constructions=30, axes=60, extras=50, pg_affine=250, pg_general=350)
     else:
-        out = collections.OrderedDict(cloud=6000, lattice=3000, thin=4000, affine=2400, forms=2400, layouts=1000, twins=1000, constructions=600, axes=1200, pg_affine=5000, pg_general=7000)
+        out = collections.OrderedDict(cloud=6000, lattice=3000, thin=4000, affine=2400, forms=2400, layouts=1000, twins=1000, constructions=600, axes=1200, extras=1000, pg_affine=5000, pg_general=7000)
     # two small always-on streams reproduce the known findings F10 / F11 (known_findings.json) in every run: case 0 of each is a fixed
     # witness, the rest are seeded inputs of the same class. Everything they trigger must match the finding's classifier below,
     # anything else is reported as a plain violation.
@@ -1005,6 +1010,8 @@ def run_case(run, tap, stream, index, rng):  # noqa: U100
         _constructions_case(run, verde, make_hull, index, rng)
     elif stream == "axes":
         _axes_case(run, verde, make_hull, index, rng)
+    elif stream == "extras":
+        _extras_case(run, verde, make_hull, index, rng)
     elif stream == "thin_vertices":
         # known finding F11: data points of a thin rotated cloud queried against their own hull
         if index == 0:
@@ -1677,6 +1684,90 @@ def _axes_case(run, verde, make_hull, index, rng):
         run.count("refused:project_grid_qhull (counted, not failed)")
     run.sample("axes", {"orientation": orient, "spacing": spacing, "hull": shape_kind, "easting": east[:8], "northing": north[:8], "grid_shape": [n_n, n_e],
                         "monitor": "grid form vs exact hull at the grid's own nodes and vs the array form on meshgrid(easting, northing)"})
+
+
+def _extras_case(run, verde, make_hull, index, rng):
+    """
+    data_coordinates with more than two arrays: "only easting and northing will be used". An ignored extra coordinate (height, time)
+    that is NaN or +-inf at some stations - at hull vertices in particular - must not change the mask: it is the exact hull test on
+    (easting, northing) of ALL data points (the mask monitor judges that) and equals the two-coordinate call.
+    """
+    n = int(rng.choice([5, 9, 20, 45, 90]))
+    dx, dy = gen.cloud(rng, n, kind=str(rng.choice(["uniform", "jitter", "clusters", "aniso"])))
+    hull = make_hull(dx, dy)
+    if hull.degenerate or hull.thin_ratio < 1e-2:
+        run.count("extras:skipped_thin_cloud")
+        return
+    is_vertex = np.array([(float(a), float(b)) in set(hull.vertices) for a, b in zip(dx, dy)])
+    height = rng.normal(size=n) * 100
+    time = np.arange(n, dtype="float64")
+    bad = [np.nan, np.inf, -np.inf][index % 3]
+    where = ["all_hull_vertices", "some_hull_vertices", "interior_points", "vertices_and_interior", "every_point"][index % 5]
+    sel = np.zeros(n, bool)
+    if where == "all_hull_vertices":
+        sel = is_vertex.copy()
+    elif where == "some_hull_vertices":
+        idx = np.flatnonzero(is_vertex)
+        sel[rng.choice(idx, max(1, idx.size // 2), replace=False)] = True
+    elif where == "interior_points":
+        sel = ~is_vertex & (rng.random(n) < 0.5)
+    elif where == "vertices_and_interior":
+        sel = rng.random(n) < 0.5
+        sel[np.flatnonzero(is_vertex)[0]] = True
+    else:
+        sel[:] = True
+    height[sel] = bad
+    if index % 2:
+        time[rng.random(n) < 0.3] = np.nan
+    run.count("extras:%s_at_%s" % ("nan" if bad != bad else "posinf" if bad > 0 else "neginf", where))
+    qx, qy = queries_for(rng, hull, dx, dy, n_uniform=120, n_edge=40)
+    k = qx.size // 4 * 4
+    q2 = (qx[:k].reshape(4, -1), qy[:k].reshape(4, -1))
+    inside, outside, either, depth, margin = hull.classify(q2[0], q2[1])
+    decided = inside | outside
+    base = _mask_call(run, verde, (dx, dy), coordinates=q2)
+    east = np.linspace(dx.min() - 0.2 * np.ptp(dx), dx.max() + 0.2 * np.ptp(dx), int(rng.integers(6, 20)))
+    north = np.linspace(dy.min() - 0.2 * np.ptp(dy), dy.max() + 0.2 * np.ptp(dy), int(rng.integers(5, 17)))
+    ds = _dataset(rng, east, north)
+    gbase = _mask_call(run, verde, (dx, dy), grid=ds)
+    e2, n2 = np.meshgrid(east, north)
+    gin, gout, _, _, _ = hull.classify(e2, n2)
+    gdecided = (gin | gout).reshape(e2.shape)
+    variants = collections.OrderedDict()
+    variants["three_arrays_height"] = (dx, dy, height)
+    variants["four_arrays_height_time"] = (dx, dy, height, time)
+    variants["list_of_three"] = [dx, dy, height]
+    variants["2d_data_with_height"] = None
+    for r in (2, 3, 5):
+        if n % r == 0:
+            variants["2d_data_with_height"] = (dx.reshape(r, -1), dy.reshape(r, -1), height.reshape(r, -1))
+            break
+    for label, data in variants.items():
+        if data is None:
+            continue
+        run.count("extras:form:%s" % label)
+        got = _mask_call(run, verde, data, coordinates=q2 + (np.full(q2[0].shape, np.nan),) if label == "four_arrays_height_time" else q2)
+        ggot = _mask_call(run, verde, data, grid=ds)
+        for form, res, ref_res, dec in (("array", got, base, decided.reshape(q2[0].shape)),
+                                         ("grid", None if ggot is None else ~np.isnan(np.asarray(ggot["scalars"].values)),
+                                          None if gbase is None else ~np.isnan(np.asarray(gbase["scalars"].values)), gdecided)):
+            if ref_res is None:
+                continue
+            run.evaluated("mask_extra_coordinate_invariance", int(dec.sum()))
+            if res is None:
+                run.violation("mask_extra_coordinate_invariance", "%s form refuses data with a non-finite ignored extra coordinate although the two-coordinate "
+                              "call on the same points is accepted (%s, %r at %s)" % (form, label, bad, where),
+                              {"data": [dx, dy], "extra": height, "where": where}, key="extras:refused:" + form)
+                continue
+            res, ref_res = np.asarray(res), np.asarray(ref_res)
+            diff = dec & (res != ref_res) if res.shape == ref_res.shape else np.ones(1, bool)
+            if diff.any():
+                run.violation("mask_extra_coordinate_invariance", "%s form: an ignored extra data coordinate that is %r at %s changes the mask (%s): %d decided points "
+                              "differ from the two-coordinate call (%d True vs %d True)" % (form, bad, where, label, int(diff.sum()), int(res.sum()), int(ref_res.sum())),
+                              {"data": [dx, dy], "extra": height, "non_finite_at": np.flatnonzero(sel), "hull_vertices": np.flatnonzero(is_vertex), "where": where,
+                               "mask": res, "mask_two_coordinates": ref_res}, key="extras:%s:%s" % (form, where))
+    run.sample("extras", {"n_data": n, "non_finite": repr(bad), "where": where, "points_affected": int(sel.sum()), "hull_vertices": int(is_vertex.sum()),
+                          "monitor": "mask == exact hull test on (easting, northing) of all data points == two-coordinate call"})
 
 
 def finish(run, tap, shard):  # noqa: U100
